@@ -1,5 +1,6 @@
 (* C05 — Abort stops every later handler and only later handlers. Property theorems only. *)
 From Rux Require Import Base Writer Chain ChainFacts ChainMore Dispatch Reg RegFacts.
+From Rux Require Import Consts Str Norm Table Sys SysFacts SysHistory SysMore.
 Open Scope Z_scope.
 
 (* For every chain of at most 63 handlers that call Next at most once (any other ops, any position):
@@ -70,6 +71,25 @@ Theorem C05_is_aborted_refuted : exists c, mrun 400 (init xctx eff k1_chain (p_x
   In (TAb true) (trace (xs c)).
 Proof. eexists. split. vm_compute. reflexivity. vm_compute. auto 40. Qed.
 
+(* end to end (SysMore.v): for the chain the router itself assembles for a request resolving to route r, the list of
+   started handlers that the OUTCOME of the request reports is the list at the moment of the Abort / AbortWithStatus -
+   through the rest of the chain, the OnError hook, the OnPanic hook and the final commit (hooks that do not call Next) *)
+Theorem C05_end_to_end : forall progs hooks s m p sc pooled rid ps r,
+  resolves_to s m p rid ps -> nth_error (s_routes s) rid = Some r ->
+  chain_ids_ok progs (s_globals s ++ r_handlers r ++ [r_main r]) ->
+  hooks_no_next (sys_cfg progs hooks s) ->
+  let hs := map progs (s_globals s) ++ map progs (r_handlers r) ++ [progs (r_main r)] in
+  exists x1,
+    assemble (sys_cfg progs hooks s) (str_eqb m OPTIONS) (route_target progs r ps p) (p_x (ctx_init sc pooled)) = (hs, x1) /\
+    forall n c a rr k, (a = OAbort \/ exists code, a = OAbortStatus code) ->
+      mrun n (init xctx eff hs x1) = Run c (FOps (a :: rr) :: k) ->
+      match fst (sys_serve progs hooks s m p sc pooled) with
+      | Some (Done _ st) | Some (Escaped _ _ st) => st = started c
+      | Some OutOfFuel => True
+      | None => False
+      end.
+Proof. exact sys_abort_end_to_end. Qed.
+
 Print Assumptions C05_no_later_start.
 Print Assumptions C05_no_later_start_status.
 Print Assumptions C05_suspended_resume.
@@ -80,3 +100,4 @@ Print Assumptions C05_is_aborted_before.
 Print Assumptions C05_status.
 Print Assumptions C05_limit.
 Print Assumptions C05_is_aborted_refuted.
+Print Assumptions C05_end_to_end.
